@@ -398,13 +398,13 @@ def build_tasks(tier, rng):
     sizes = [1e-2, 0.1, 0.5, 1.0, 3.7, 10.0, 100.0] if not thorough else [1e-2, 0.03, 0.1, 0.25, 0.5, 1.0, 2.0, 3.7, 10.0, 31.0, 100.0]
     rnd = lambda: float(10.0 ** rng.uniform(-2, 2))
     # spheres, orders 0-4
-    for r in sizes + [rnd() for _ in range(20 if not thorough else 150)]:
+    for r in sizes + [rnd() for _ in range(20 if not thorough else 60)]:
         for order in range(5):
             tasks.append(dict(kind="sphere", par=dict(radius=r, order=order), cls=f"order{order}"))
     # ellipsoids
     triples = [(1, 1, 1), (1, 1, 2), (2, 1, 1), (1, 2, 3), (0.01, 0.01, 0.01), (100, 100, 100), (0.01, 100, 1), (100, 0.01, 0.01),
                (0.5, 0.25, 0.375), (0.2, 1.0, 0.5), (3, 3, 0.01)]
-    triples += [tuple(rnd() for _ in range(3)) for _ in range(30 if not thorough else 250)]
+    triples += [tuple(rnd() for _ in range(3)) for _ in range(30 if not thorough else 150)]
     for tr in triples:
         for order in range(5):
             tasks.append(dict(kind="ellipsoid", par=dict(radii=[float(x) for x in tr], order=order), cls=f"order{order}"))
@@ -517,6 +517,11 @@ def main():
     t0 = time.time()
     rng = np.random.default_rng(a.seed)
     tasks = build_tasks(a.tier, rng)
+    warm = None
+    try:        # import (and, with a cold numba cache, compile) once in the parent; the forked workers inherit the loaded modules
+        import distance3d.hydroelastic_contact  # noqa: F401
+    except Exception as e:
+        warm = f"{type(e).__name__}: {e}"
     # heavy cases (order 4) first so that the pool is balanced
     order = sorted(range(len(tasks)), key=lambda i: -(tasks[i]["par"].get("order", 0)))
     tasks = [tasks[i] for i in order]
@@ -557,6 +562,8 @@ def main():
         by_kind[t["kind"]] = by_kind.get(t["kind"], 0) + 1
     if herr:
         extra["harness_errors"] = herr[:5]
+    if warm:
+        extra["warm_up_error"] = warm
     failures, extra["failure_counts"] = order_failures(failures)
     import distance3d
     extra["library"] = os.path.dirname(distance3d.__file__)
